@@ -13,6 +13,7 @@ import (
 	"go/ast"
 	"go/constant"
 	"go/format"
+	"go/parser"
 	"go/token"
 	"go/types"
 	"os"
@@ -256,6 +257,26 @@ func rewriteFile(p *packages.Package, f *ast.File) (bool, []byte, error) {
 			r.needSim = true
 			changed = true
 			cs.Fatal++
+		}
+	}
+
+	// special package: utils/diskspaceutil.Usage consults the simulator first
+	if p.PkgPath == krakenPrefix+"utils/diskspaceutil" {
+		for _, d := range f.Decls {
+			fd, ok := d.(*ast.FuncDecl)
+			if !ok || fd.Recv != nil || fd.Name.Name != "Usage" || fd.Body == nil {
+				continue
+			}
+			src := "package x\nfunc f() { if u, err, ok := simrt.DiskUsageHook(); ok { return UsageInfo{Util: u.Util, TotalBytes: u.Total, UsedBytes: u.Used, FreeBytes: u.Free}, err } }"
+			pf, perr := parser.ParseFile(token.NewFileSet(), "", src, 0)
+			if perr != nil {
+				return false, nil, perr
+			}
+			hook := pf.Decls[0].(*ast.FuncDecl).Body.List
+			fd.Body.List = append(hook, fd.Body.List...)
+			r.needSim = true
+			changed = true
+			cs.Decorate++
 		}
 	}
 
